@@ -353,6 +353,11 @@ def run(ctx):
     # ---- (2) real runs with a concurrent reader / signals
     nruns = 36 if ctx.thorough else 9
     jobs = [e2ejobs.job(rng, size='medium', jobs=rng.choice([1, 2, 4])) for _ in range(nruns)]
+    # several parallel ddmin rounds with results still in flight when one is adopted
+    wide = ('(set-logic ALL)\n' + ''.join(f'(declare-const v{k} Int)\n' for k in range(10))
+            + ''.join(f'(assert (> (+ v{k % 10} {k + 2}) (* v{(k + 3) % 10} {k + 3})))\n' for k in range(14)) + '(check-sat)\n')
+    for k in range(3):
+        jobs[k * 3 + (k % 3)] = dict(text=wide, opts=['--strategy', 'ddmin', '-j', str(2 + k)], cmd=[e2e.TOKPRED, 'all', 'v1', 'v4', str(k + 5)], env={})
     for j in jobs:
         j['env']['VERIF_CMD_DELAY'] = '20'
     import concurrent.futures
@@ -404,6 +409,7 @@ def run(ctx):
             problems.append(f'temporary files left after a normal exit: {r["tmp_left"] + r["dir_left"]}')
         if not r['input_ok']:
             problems.append('the input file was written to')
+        problems += e2e.lag_problems(r['events'])
         for msg in problems:
             ctx.violation('impl-violation', input=j['text'], options=j['opts'], command=j['cmd'], scenario=kind, observed=msg,
                           expected='complete accepted input at every instant and after interrupt/kill; temporary directory gone')
